@@ -1,4 +1,462 @@
-/-! Model/C08 — executable model (core Lean only; imports only NibabelModel.Basic.* / other Model files). -/
+/-! Model/C08 — executable model for C08 "a truncated file is never read back as different data"
+    (core Lean only).
+
+    Readers are functions `Src → Except Err Data`.  A `Src` is what an opened (possibly truncated,
+    possibly compressed) file looks like to the Python reader: the bytes that can be obtained and what
+    happens at their end (`strict = false`: short read / clean EOF, as for a plain file and for
+    `indexed_gzip` before the gzip trailer; `strict = true`: any read reaching beyond the end raises, as
+    Python's `gzip`/`bz2`/`pyzstd` do on a stream lacking its end marker).
+
+    Byte values are `Nat` (`< 256` where it matters); the binary header codec is our own small
+    little-endian codec — the real header layouts are the subject of C10; what C08 models is which bytes
+    a reader requires to be present and which length checks it makes:
+
+    * volume files   `nibabel/loadsave.py:100-121` (`load`), `filebasedimages.py:425-476`
+                     (`path_maybe_image`/`_sniff_meta_for`), `wrapstruct.py:159-161` (size check),
+                     `nifti1.py:727-797` (`Nifti1Extensions.from_fileobj`), `nifti1.py:861-881`
+                     (`Nifti1Header.from_fileobj`), `volumeutils.py:441-479` (`array_from_file`),
+                     `freesurfer/mghformat.py:157-175` (`MGHHeader.from_fileobj`)
+    * TRK            `streamlines/trk.py:567-642` (`_read_header`), `trk.py:644-738` (`_read`)
+    * TCK            `streamlines/tck.py:310-396` (`_read_header`), `tck.py:398-480` (`_read`)
+    * XML formats    (GIFTI) only through the expat contract. -/
 namespace Nb.C08
+
+abbrev Bytes := List Nat
+
+inductive Err where
+  | trunc   -- a reader's own length check failed / the stream raised at its truncated end
+  | bad     -- malformed content (bad magic, bad size field …)
+  deriving DecidableEq, Repr
+
+/-! ## Sources -/
+
+structure Src where
+  bytes : Bytes
+  strict : Bool
+  deriving Repr
+
+def Src.plain (b : Bytes) : Src := ⟨b, false⟩
+
+/-- `f.seek(pos); f.read(n)` — at most `n` bytes; a strict source raises when the request reaches
+    beyond the available bytes (a forward seek in a decompressor reads and raises the same way). -/
+def Src.read (s : Src) (pos n : Nat) : Except Err Bytes :=
+  if s.strict && decide (s.bytes.length < pos + n) then .error .trunc
+  else .ok ((s.bytes.drop pos).take n)
+
+/-- `f.seek(pos); f.read()` / reading until EOF is seen -/
+def Src.readAll (s : Src) (pos : Nat) : Except Err Bytes :=
+  if s.strict then .error .trunc else .ok (s.bytes.drop pos)
+
+/-! ## Byte codec -/
+
+/-- `w` little-endian bytes of `v` -/
+def leN : Nat → Nat → Bytes
+  | 0, _ => []
+  | w + 1, v => (v % 256) :: leN w (v / 256)
+
+/-- little-endian value of a byte list (missing high bytes count as zero, which is exactly the
+    zero-padded buffer of `readinto`) -/
+def deLE : Bytes → Nat
+  | [] => 0
+  | b :: r => b + 256 * deLE r
+
+/-- field of width `w` at `off` in a zero-padded view of `b` -/
+def rdLE (b : Bytes) (off w : Nat) : Nat := deLE ((b.drop off).take w)
+
+def padTo (n : Nat) (l : Bytes) : Bytes := l ++ List.replicate (n - l.length) 0
+
+/-- big-endian reading of the same zero-padded field -/
+def rdBE (b : Bytes) (off w : Nat) : Nat := deLE (padTo w ((b.drop off).take w)).reverse
+
+/-! ## Volume files (NIfTI-1/2 single and pair, Analyze/SPM, MGH) -/
+
+structure VolFmt where
+  /-- size of the binary header block; `WrapStruct.__init__` rejects any other length -/
+  hdrSize : Nat
+  /-- `load` needs this many sniffed bytes of the header file to recognise the class (0: no sniff) -/
+  sniffLen : Nat
+  /-- NIfTI: the header is followed by a 4-byte extender and extension records -/
+  exts : Bool
+  /-- data offset fixed by the format (MGH: 284); `none`: the header's `vox_offset` field -/
+  fixedOff : Option Nat
+  /-- size of the optional block read after the data in the same file (MGH footer), else 0 -/
+  footer : Nat
+  deriving Repr, DecidableEq
+
+/-- our header codec: data length and data offset as two 8-byte little-endian fields, then filler -/
+structure Img where
+  fill : Bytes                    -- rest of the header block (opaque)
+  extender : Bytes                -- 4 bytes (NIfTI); first byte ≠ 0 iff extensions follow
+  exts : List (Nat × Bytes)       -- (ecode, payload); esize = 8 + payload.length
+  pad : Bytes                     -- bytes between the header part and the data (MGH: up to 284)
+  data : Bytes                    -- raw voxel bytes
+  footer : Bytes                  -- optional trailing metadata (MGH)
+  deriving Repr
+
+def encExt (e : Nat × Bytes) : Bytes := leN 4 (8 + e.2.length) ++ leN 4 e.1 ++ e.2
+
+def extBytes (img : Img) : Bytes := (img.exts.map encExt).flatten
+
+/-- everything between the header block and the data in a single file -/
+def midBytes (fmt : VolFmt) (img : Img) : Bytes :=
+  (if fmt.exts then img.extender ++ extBytes img else []) ++ img.pad
+
+def hdrBlock (img : Img) (voxOff : Nat) : Bytes :=
+  leN 8 img.data.length ++ leN 8 voxOff ++ img.fill
+
+/-- offset of the data in a single file -/
+def singleOff (fmt : VolFmt) (img : Img) : Nat := 16 + img.fill.length + (midBytes fmt img).length
+
+/-- single-file writer: header ‖ extender ‖ extensions ‖ pad ‖ data ‖ footer -/
+def writeSingle (fmt : VolFmt) (img : Img) : Bytes :=
+  hdrBlock img (singleOff fmt img) ++ midBytes fmt img ++ img.data ++ img.footer
+
+/-- header file of a pair: header (vox_offset 0) ‖ extender ‖ extensions -/
+def writeHdrFile (fmt : VolFmt) (img : Img) : Bytes :=
+  hdrBlock img 0 ++ (if fmt.exts then img.extender ++ extBytes img else [])
+
+/-- image file of a pair -/
+def writeImgFile (img : Img) : Bytes := img.data
+
+/-- `_sniff_meta_for` + `path_maybe_image`: read `max(sniffLen, 1024)` bytes of the header file; a
+    compression error or fewer than `sniffLen` bytes ⇒ the class is not recognised ⇒ `ImageFileError` -/
+def sniffOk (fmt : VolFmt) (s : Src) : Bool :=
+  if fmt.sniffLen = 0 then true
+  else match s.read 0 (max fmt.sniffLen 1024) with
+    | .error _ => false
+    | .ok b => decide (fmt.sniffLen ≤ b.length)
+
+/-- `Nifti1Extensions.from_fileobj(fileobj, size, byteswap)`, reading at `pos`; `size < 0` = to the end.
+    Extension contents do not influence the voxel data, so only success/failure is returned.
+    `fuel`: every round consumes at least 8 available bytes. -/
+def readExts (s : Src) : Nat → Nat → Int → Except Err Unit
+  | 0, _, _ => .error .bad
+  | fuel + 1, pos, size =>
+    if 16 ≤ size ∨ size < 0 then
+      match s.read pos 8 with
+      | .error e => .error e
+      | .ok d =>
+        if d.length = 0 ∧ size < 0 then .ok ()
+        else if d.length ≠ 8 then .error .trunc          -- 'failed to read extension header'
+        else
+          let esize := rdLE d 0 4
+          if esize = 0 then .ok ()                       -- zero size: padding follows (fix 5e72d9d1)
+          else if 2 ^ 31 ≤ esize ∨ esize < 8 then .error .bad
+          else match s.read (pos + 8) (esize - 8) with
+            | .error e => .error e
+            | .ok v =>
+              if v.length ≠ esize - 8 then .error .trunc -- 'failed to read extension content'
+              else readExts s fuel (pos + esize) (size - esize)
+    else .ok ()
+
+/-- `array_from_file`, read path: exactly `n` bytes at `off` or "Expected n bytes, got m" -/
+def dataRead (s : Src) (off n : Nat) : Except Err Bytes :=
+  if n = 0 then .ok []
+  else match s.read off n with
+    | .error e => .error e
+    | .ok b => if b.length ≠ n then .error .trunc else .ok b
+
+/-- `array_from_file`, `np.memmap` path: numpy refuses (`ValueError`) when the file is shorter than
+    `off + n` or the map would be empty, and the code falls back to the read path.  `mmap` is only
+    attempted on uncompressed file objects (`useMmap` already includes that test). -/
+def dataMmap (s : Src) (off n : Nat) : Except Err Bytes :=
+  if 0 < n ∧ off + n ≤ s.bytes.length then .ok ((s.bytes.drop off).take n)
+  else dataRead s off n
+
+def readData (useMmap : Bool) (s : Src) (off n : Nat) : Except Err Bytes :=
+  if useMmap then dataMmap s off n else dataRead s off n
+
+/-- header phase shared by single files and pairs: sniff, complete header block, extender,
+    extensions (`single = true`: up to vox_offset; pair: to the end of the header file), footer.
+    Returns (data length, data offset). -/
+def readHeader (fmt : VolFmt) (single : Bool) (s : Src) : Except Err (Nat × Nat) :=
+  if ¬ sniffOk fmt s then .error .bad                            -- 'Cannot work out file type'
+  else match s.read 0 fmt.hdrSize with
+    | .error e => .error e
+    | .ok hb =>
+      if hb.length ≠ fmt.hdrSize then .error .trunc              -- 'Binary block is wrong size'
+      else
+        let n := rdLE hb 0 8
+        let off := fmt.fixedOff.getD (rdLE hb 8 8)
+        let extPhase : Except Err Unit :=
+          if fmt.exts then
+            match s.read fmt.hdrSize 4 with
+            | .error e => .error e
+            | .ok st =>
+              if st.length < 4 ∨ st.head? = some 0 then .ok ()
+              else readExts s (s.bytes.length + 1) (fmt.hdrSize + 4)
+                     (if single then (off : Int) - (fmt.hdrSize + 4 : Nat) else -1)
+          else .ok ()
+        match extPhase with
+        | .error e => .error e
+        | .ok () =>
+          if fmt.footer = 0 then .ok (n, off)
+          else match s.read (off + n) fmt.footer with             -- MGH: seek behind the data, read footer
+            | .error e => .error e
+            | .ok _ => .ok (n, off)                               -- short footer is zero-padded
+
+/-- load a single-file volume and read its data -/
+def readSingle (fmt : VolFmt) (useMmap : Bool) (s : Src) : Except Err Bytes :=
+  match readHeader fmt true s with
+  | .error e => .error e
+  | .ok (n, off) => readData useMmap s off n
+
+/-- load a header/image pair and read its data -/
+def readPair (fmt : VolFmt) (useMmap : Bool) (hs is : Src) : Except Err Bytes :=
+  match readHeader fmt false hs with
+  | .error e => .error e
+  | .ok (n, off) => readData useMmap is off n
+
+/-- `loadsave.load` (`loadsave.py:100-106`): a file of size 0 on disk is refused before any reader runs -/
+def load {α : Type} (diskLen : Nat) (r : Except Err α) : Except Err α :=
+  if diskLen = 0 then .error .bad else r
+
+/-- `array_from_file` tries `np.memmap` only when asked to and the file object is not a compressed one
+    (`volumeutils.py:446`, `_is_compressed_fobj`) -/
+def effMmap (mmap compressed : Bool) : Bool := mmap && !compressed
+
+/-! ## TRK -/
+
+def trkHdrSize : Nat := 1000
+def trkOffNsc : Nat := 36
+def trkOffNpr : Nat := 238
+def trkOffCount : Nat := 988
+def trkOffVersion : Nat := 992
+def trkOffHdrSize : Nat := 996
+
+/-- one streamline record: number of points, point rows (`npts*(3+nsc)*4` bytes), properties (`npr*4`) -/
+structure TrkRec where
+  npts : Nat
+  pts : Bytes
+  props : Bytes
+  deriving Repr, DecidableEq
+
+structure Trk where
+  nsc : Nat
+  npr : Nat
+  fillA : Bytes    -- 36 bytes  (id_string, dim, voxel_size, origin)
+  fillB : Bytes    -- 200 bytes (scalar names … )
+  fillC : Bytes    -- 748 bytes (property names, vox_to_ras, … )
+  recs : List TrkRec
+  deriving Repr
+
+def encRec (r : TrkRec) : Bytes := leN 4 r.npts ++ r.pts ++ r.props
+
+def trkHeader (t : Trk) (count : Nat) : Bytes :=
+  t.fillA ++ leN 2 t.nsc ++ t.fillB ++ leN 2 t.npr ++ t.fillC ++ leN 4 count ++ leN 4 2 ++ leN 4 trkHdrSize
+
+def trkBody (l : List TrkRec) : Bytes := (l.map encRec).flatten
+
+/-- `TrkFile.save`: the header stores the true number of streamlines -/
+def trkWrite (t : Trk) : Bytes := trkHeader t t.recs.length ++ trkBody t.recs
+
+/-- the loop of `TrkFile._read` (`trk.py:691-733`).  `psz` bytes per point row, `prsz` bytes of
+    properties, `cnt` the header count (0 = unknown, read to EOF), `check` = the count check added by
+    fix 5204b8c7. -/
+def trkLoop (s : Src) (rd : Bytes → Nat) (psz prsz cnt : Nat) (check : Bool) :
+    Nat → Nat → Nat → List (Bytes × Bytes) → Except Err (List (Bytes × Bytes))
+  | 0, _, _, _ => .error .bad
+  | fuel + 1, pos, count, acc =>
+    let finish : Except Err (List (Bytes × Bytes)) :=
+      if check ∧ count < cnt then .error .trunc else .ok acc.reverse
+    if cnt ≠ 0 ∧ cnt ≤ count then finish
+    else match s.read pos 4 with
+      | .error e => .error e
+      | .ok h =>
+        if h.length = 0 then finish                                 -- EOF
+        else if h.length < 4 then .error .trunc                     -- struct.error
+        else
+          let npts := rd h
+          if 2 ^ 31 ≤ npts then .error .bad                         -- negative int32
+          else match s.read (pos + 4) (npts * psz) with
+            | .error e => .error e
+            | .ok p =>
+              if p.length < npts * psz then .error .trunc           -- buffer too small
+              else match s.read (pos + 4 + npts * psz) prsz with
+                | .error e => .error e
+                | .ok q =>
+                  if q.length < prsz then .error .trunc
+                  else trkLoop s rd psz prsz cnt check fuel (pos + 4 + npts * psz + prsz) (count + 1)
+                         ((p, q) :: acc)
+
+/-- `TrkFile._read_header` + `_read`: `readinto` of a 1000-byte zeroed buffer (the number of bytes
+    obtained is not checked), `hdr_size` native or swapped, version, then the records starting at
+    `f.tell()`. -/
+def trkReadGen (check : Bool) (s : Src) : Except Err (List (Bytes × Bytes)) :=
+  match s.read 0 trkHdrSize with
+  | .error e => .error e
+  | .ok hb =>
+    let le := rdLE hb trkOffHdrSize 4 = trkHdrSize
+    let be := rdBE hb trkOffHdrSize 4 = trkHdrSize
+    if ¬ le ∧ ¬ be then .error .bad                                  -- 'Invalid hdr_size'
+    else
+      let f : Nat → Nat → Nat := fun off w => if le then rdLE hb off w else rdBE hb off w
+      let version := f trkOffVersion 4
+      if version ≠ 1 ∧ version ≠ 2 ∧ version ≠ 3 then .error .bad
+      else
+        let nsc := f trkOffNsc 2
+        let npr := f trkOffNpr 2
+        let cnt := f trkOffCount 4
+        if 2 ^ 15 ≤ nsc ∨ 2 ^ 15 ≤ npr ∨ 2 ^ 31 ≤ cnt then .error .bad   -- negative values
+        else
+          let rd : Bytes → Nat := fun h => if le then rdLE h 0 4 else rdBE h 0 4
+          trkLoop s rd ((3 + nsc) * 4) (npr * 4) cnt check (s.bytes.length + 1) hb.length 0 []
+
+/-- the reader as it is now -/
+def trkRead : Src → Except Err (List (Bytes × Bytes)) := trkReadGen true
+/-- the pinned reader (before fix 5204b8c7): no count check -/
+def trkReadOrig : Src → Except Err (List (Bytes × Bytes)) := trkReadGen false
+
+def trkData (t : Trk) : List (Bytes × Bytes) := t.recs.map (fun r => (r.pts, r.props))
+
+/-! ## TCK -/
+
+def tckMagic : Bytes := [109, 114, 116, 114, 105, 120, 32, 116, 114, 97, 99, 107, 115]  -- "mrtrix tracks"
+def nl : Nat := 10
+def bEND : Bytes := [69, 78, 68]
+def bFilePrefix : Bytes := [102, 105, 108, 101, 58]    -- "file:"
+
+def isWs (b : Nat) : Bool := b = 32 ∨ b = 9 ∨ b = 10 ∨ b = 13 ∨ b = 11 ∨ b = 12
+
+/-- `bytes.strip()` -/
+def strip (l : Bytes) : Bytes := ((l.dropWhile isWs).reverse.dropWhile isWs).reverse
+
+/-- decimal digits of `n` (ASCII), as `f'{n}'` -/
+def decDigits (n : Nat) : Bytes := (Nat.toDigits 10 n).map (fun c => c.toNat)
+
+/-- `int(str)` on ASCII decimal digits; `none` if a non-digit occurs or the string is empty -/
+def parseDec (l : Bytes) : Option Nat :=
+  if l = [] then none
+  else l.foldl (fun acc b => match acc with
+    | none => none
+    | some v => if 48 ≤ b ∧ b ≤ 57 then some (10 * v + (b - 48)) else none) (some 0)
+
+/-- one line of a binary file iteration: up to and including the first `\n`, and the rest -/
+def takeLine : Bytes → Bytes × Bytes
+  | [] => ([], [])
+  | b :: r => if b = nl then ([b], r) else let (l, r') := takeLine r; (b :: l, r')
+
+/-- value of a `file:` line: `. <offset>`; `none` if ill-formed -/
+def parseFileLine (v : Bytes) : Option Nat :=
+  match strip v with
+  | 46 :: rest => parseDec (strip rest)      -- '.'
+  | _ => none
+
+/-- the header loop of `TckFile._read_header` (`tck.py:331-356`) over the text after the magic line:
+    returns the `file:` offset (if such a line was seen) when a line stripping to `END` is found.
+    (Other keys are collected by the real code but do not influence where the data are read.) -/
+def tckScan : Nat → Bytes → Option Nat → Except Err (Option Nat)
+  | 0, _, _ => .error .bad
+  | fuel + 1, rest, fileOff =>
+    if rest = [] then .error .bad                                   -- 'Missing END in the header.'
+    else
+      let (line, rest') := takeLine rest
+      let ln := strip line
+      if ln = bEND then .ok fileOff
+      else if ln.take 5 = bFilePrefix then
+        match parseFileLine (ln.drop 5) with
+        | some o => tckScan fuel rest' (some o)
+        | none => .error .bad
+      else tckScan fuel rest' fileOff
+
+/-- classification of a float32 little-endian value given as 4 bytes -/
+def f32Exp (v : Bytes) : Nat := (v.getD 3 0 % 128) * 2 + v.getD 2 0 / 128
+def f32Man (v : Bytes) : Nat := (v.getD 2 0 % 128) * 65536 + v.getD 1 0 * 256 + v.getD 0 0
+def f32IsNaN (v : Bytes) : Bool := f32Exp v = 255 ∧ f32Man v ≠ 0
+def f32IsInf (v : Bytes) : Bool := f32Exp v = 255 ∧ f32Man v = 0
+
+/-- a triple is 12 bytes -/
+def tripleAll (p : Bytes → Bool) (t : Bytes) : Bool :=
+  p (t.take 4) && p ((t.drop 4).take 4) && p ((t.drop 8).take 4)
+
+/-- cut a byte list of length `12*j` into triples -/
+def triples : Nat → Bytes → List Bytes
+  | 0, _ => []
+  | j + 1, b => b.take 12 :: triples j (b.drop 12)
+
+/-- the delimiter loop of `TckFile._read` (`tck.py:446-466`): `cur` = points since the last NaN
+    triple (reversed), `acc` = streamlines found (reversed); returns (streamlines, leftover). -/
+def tckSplit : List Bytes → List Bytes → List (List Bytes) → List (List Bytes) × List Bytes
+  | [], cur, acc => (acc.reverse, cur.reverse)
+  | t :: r, cur, acc =>
+    if tripleAll f32IsNaN t then
+      tckSplit r [] (if cur = [] then acc else cur.reverse :: acc)
+    else tckSplit r (t :: cur) acc
+
+/-- the data part: all bytes from `off` to EOF, as float32 triples, split at NaN triples; the leftover
+    must be exactly one all-inf triple (`tck.py:468-473`). -/
+def tckData (s : Src) (off : Nat) : Except Err (List (List Bytes)) :=
+  match s.readAll off with
+  | .error e => .error e
+  | .ok b =>
+    if b.length % 4 ≠ 0 then .error .trunc                   -- np.frombuffer: not a multiple of 4
+    else if (b.length / 4) % 3 ≠ 0 then .error .trunc        -- reshape((-1, 3))
+    else
+      let (sl, left) := tckSplit (triples (b.length / 12) b) [] []
+      match left with
+      | [t] => if tripleAll f32IsInf t then .ok sl else .error .trunc
+      | _ => .error .trunc
+
+/-- `TckFile._read_header` + `_read` -/
+def tckRead (s : Src) : Except Err (List (List Bytes)) :=
+  match s.read 0 13 with
+  | .error e => .error e
+  | .ok m =>
+    if m ≠ tckMagic then .error .bad
+    else
+      -- text lines are read through the buffered reader: a strict source raises if END is not
+      -- inside the available bytes, a plain one reports 'Missing END' — an error in both cases
+      match tckScan (s.bytes.length + 1) (s.bytes.drop 14) none with
+      | .error e => .error e
+      | .ok none => .error .bad      -- written files always carry a `file:` line
+      | .ok (some off) => tckData s off
+
+structure Tck where
+  lines : List Bytes             -- header lines between the magic line and the `file:` line (no `\n` inside)
+  streams : List (List Bytes)    -- streamlines: lists of 12-byte triples
+  deriving Repr
+
+def nanTriple : Bytes := [0, 0, 192, 127, 0, 0, 192, 127, 0, 0, 192, 127]
+def infTriple : Bytes := [0, 0, 128, 127, 0, 0, 128, 127, 0, 0, 128, 127]
+
+def tckHeaderPre (t : Tck) : Bytes :=
+  tckMagic ++ [nl] ++ (t.lines.map (· ++ [nl])).flatten ++ bFilePrefix ++ [32, 46, 32]
+
+/-- the two offset lines of `TckFile._write_header` (`tck.py:275-283`): `n0` = length of everything
+    before the offset digits plus `\nEND\n` -/
+def tckOffset (n0 : Nat) : Nat :=
+  let h := n0
+  h + (decDigits (h + (decDigits h).length)).length
+
+def tckHeader (t : Tck) : Bytes :=
+  let pre := tckHeaderPre t
+  pre ++ decDigits (tckOffset (pre.length + 5)) ++ [nl] ++ bEND ++ [nl]
+
+def tckBody (l : List (List Bytes)) : Bytes :=
+  (l.map (fun st => st.flatten ++ nanTriple)).flatten ++ infTriple
+
+def tckWrite (t : Tck) : Bytes := tckHeader t ++ tckBody t.streams
+
+/-! ## XML formats (GIFTI): expat contract only -/
+
+/-- "a strict prefix of a document lacking the root end tag raises": the parser is fed everything up
+    to EOF; `rootEnd` = number of bytes up to and including the root end tag. -/
+def xmlRead (rootEnd : Nat) (s : Src) : Except Err Bytes :=
+  match s.readAll 0 with
+  | .error e => .error e
+  | .ok b => if b.length < rootEnd then .error .trunc else .ok (b.take rootEnd)
+
+/-! ## Codec (DESIGN §3): what opening a possibly truncated compressed file yields -/
+
+structure Codec where
+  compress : Bytes → Bytes
+  /-- the source a reader sees after `Opener(path)` on these on-disk bytes -/
+  decompress : Bytes → Src
+  /-- round trip: the complete stream reads back as the plaintext with a clean EOF -/
+  roundtrip : ∀ x, decompress (compress x) = Src.plain x
+  /-- prefix contract: a strict prefix of a compressed stream yields a prefix of the plaintext, followed
+      by EOF or by an error -/
+  prefix_contract : ∀ x k, k < (compress x).length →
+    ∃ m st, m ≤ x.length ∧ decompress ((compress x).take k) = ⟨x.take m, st⟩
 
 end Nb.C08
